@@ -434,3 +434,13 @@ func finish(r *Result, ri runInfo, findings []Finding) int {
 }
 
 var explanations = map[string]string{}
+
+func (r *Result) hasConstruct(rule, construct string) bool {
+	key := rule + " | " + construct
+	for _, o := range r.Obls {
+		if o.Construct == key {
+			return true
+		}
+	}
+	return false
+}
